@@ -132,7 +132,8 @@ fn grammar(max_n: usize) -> Grammar {
 fn family(report: &Report, max_n: usize) {
     let g = grammar(max_n);
     let total = g.count_upto(max_n);
-    let partials = vec![("p".to_string(), "<p:{{ x }}{% cycle 'u', 'v' %}>".to_string())];
+    // `p.liquid` exists next to `p`: render's fallback lookup must never run after `p` itself failed on the sink
+    let partials = vec![("p".to_string(), "<p:{{ x }}{% cycle 'u', 'v' %}>".to_string()), ("p.liquid".to_string(), "<alt>".to_string())];
     let parser = cfgs::build(Config::Stdlib, Policy::Eager, &partials).expect("parser");
     let datas = [
         V::obj(&[("x", V::s("dx")), ("arr", V::Arr(vec![V::s("e1"), V::s("é2")]))]),
